@@ -1,4 +1,5 @@
 """C04 -- every solve terminates cleanly within its limits (structural clauses)"""
+import re
 from engine.mir import last_seg, show, AnchorError, strip_generics
 from engine.preds import canon, Walker, ShapeError
 from engine.effects import IDX, fmt_path
@@ -628,6 +629,24 @@ def settings_strings(rep, F, tag):
         sv, sd = strs(v), strs(d)
         sv = {s for s in sv if s.isidentifier()}
         sd = {s for s in sd if s.isidentifier()}
+        # both must compare the *same function* of the stored string: a validator that normalises case or trims while
+        # the dispatcher compares verbatim accepts strings on which the dispatcher panics
+        def compared(f):
+            out = set()
+            for c in f.calls:
+                if c.callee.name in ('eq', 'ne') and len(c.args) == 2:
+                    a = [canon(f.sym_operand(x)) for x in c.args]
+                    lit = [x for x in a if x.startswith('"')]
+                    oth = [x for x in a if not x.startswith('"')]
+                    if len(lit) == 1 and len(oth) == 1:
+                        t = re.sub(r'arg\d+(\.[A-Za-z_]\w*)*', 'INPUT', oth[0])
+                        t = t.replace('as_str(INPUT)', 'INPUT').replace('deref(INPUT)', 'INPUT')
+                        out.add(t)
+            return out
+        cv, cd = compared(v), compared(d)
+        R.check(cv == cd and len(cv) == 1, 'direct_solve_method|same-normalisation' + tag,
+                'validate_direct_solve_method compares %s with the option names but the dispatcher compares %s: the two must apply the same '
+                'normalisation to the stored string' % (sorted(cv), sorted(cd)), v.loc())
         R.check(sv and sv <= sd, 'direct_solve_method' + tag,
                 'validate_direct_solve_method accepts %s but the dispatcher handles only %s' % (sorted(sv), sorted(sd)),
                 d.loc(), detail={'validator': sorted(sv), 'dispatcher': sorted(sd)})
